@@ -36,6 +36,8 @@ class TreeGen:
         # a tracked Array written in place at a secret index inside regions (the write happens on the object, the merge at the
         # end of the region has to undo it when the region was not taken)
         self.arrays = rnd.random() < 0.3
+        # a fixed-point tracked variable that branches assign integers to (and the other way round at the merge)
+        self.fxp = rnd.random() < 0.3
 
     ELEMS = ["l[0]", "l[1]", "l[2]", "m[0][0]", "m[0][1]", "m[1][0]", "m[1][1]"]
 
@@ -74,6 +76,9 @@ class TreeGen:
         r = self.rnd
         x = r.random()
         if depth >= 3 or x < 0.45:
+            if self.fxp and r.random() < 0.25:
+                self.kinds.add("fixed-point-variable-assigned-integers")
+                return ("assign_raw", "f", r.choice(["{a} + 0", "{b} + 1", "{f} + 1", "{f} + {a}", "{c} * 2", "{f} * 2"]))
             if self.arrays and r.random() < 0.3:
                 self.kinds.add("array-write-at-secret-index")
                 return ("arr_write", r.choice(vars_), self.expr(vars_))
@@ -173,7 +178,7 @@ def render(tree, api):
 
     def ex(e):
         out = e
-        for v in ["a", "b", "c", "l", "m"] + ["d%d" % i for i in range(10)] + TreeGen.ELEMS:
+        for v in ["a", "b", "c", "l", "m", "f"] + ["d%d" % i for i in range(10)] + TreeGen.ELEMS:
             out = out.replace("{%s}" % v, ("_.%s" % v) if api else v)
         return out
 
@@ -319,6 +324,9 @@ def worker(job):
         if tg.lists:
             head_api += ["_.l = [_.a + 0, _.b + 1, ConstVal(3)]", "_.m = [[_.a + 1, _.b + 0], [_.c + 0, ConstVal(2)]]"]
             head_twin += ["l = [a + 0, b + 1, 3]", "m = [[a + 1, b + 0], [c + 0, 2]]"]
+        if tg.fxp:
+            head_api += ["_.f = PrivValFxp(I[0] / 2.0)"]
+            head_twin += ["f = I[0] / 2.0"]
         if tg.arrays:
             head_api += ["_.arr = Array([_.a + 1, _.b + 2, ConstVal(9)])"]
             head_twin += ["arr = [a + 1, b + 2, 9]"]
@@ -338,7 +346,7 @@ def worker(job):
         else:
             api_src = "\n".join(head_api + render(tree, True) + ["RES = _"] + (["SHARED = [S, T]"] if tg.shared else [])) + "\n"
         twin_src = "\n".join(head_twin + render(tree, False)) + "\n"
-        prog = G.Prog(api_src, [], 32, 0)
+        prog = G.Prog(api_src, [], 32, 4)
         try:
             chunks = G.compile_chunks(api_src)
             twin_code = compile(twin_src, "<vftwin>", "exec")
@@ -461,6 +469,10 @@ def worker(job):
 def plainval(v):
     if isinstance(v, list):
         return [plainval(x) for x in v]
+    if type(v).__name__ == "LinCombFxp":
+        import pysnark.fixedpoint as _fx
+        q = v.lc.value / (1 << _fx.resolution)
+        return int(q) if q == int(q) else q
     if hasattr(v, "arr") and isinstance(getattr(v, "arr"), list):
         return [plainval(x) for x in v.arr]       # a pysnark Array
     if isinstance(v, int):
